@@ -29,4 +29,7 @@ for f in sorted(glob.glob(os.path.join(V, "seeded/*/meta.json"))):
     last = runs[-1]
     sig = "; ".join(x.split(" sig=")[-1] for x in last.get("signatures", [])[:2])
     hist = " -> ".join(r["verdict"] for r in runs)
-    print("| %s | %s | %s | `%s` | %s |" % (sid, m["confirmation"].get("confirmed"), last["verdict"], sig, hist))
+    verdict = last["verdict"]
+    if m.get("also_caught_by"):
+        verdict += " (caught by %s)" % ", ".join(m["also_caught_by"])
+    print("| %s | %s | %s | `%s` | %s |" % (sid, m["confirmation"].get("confirmed"), verdict, sig, hist))
